@@ -1,6 +1,6 @@
 """Properties not claimed, with the reason (DESIGN.md §4).  Entries for properties that appear in props.PROPS are ignored."""
 
-HOOK_COMMITS = ['238f505']
+HOOK_COMMITS = ['238f505', 'e9abb28']
 
 UNDER_CONSTRUCTION = 'check under construction in this round (planned in DESIGN.md §4); not yet claimed'
 
